@@ -10,6 +10,7 @@ import NurbsVerif.Lemmas.KnotRowsInsVol
 import Mathlib.Data.List.Perm.Basic
 import NurbsVerif.Lemmas.UniqueRemove
 import NurbsVerif.Lemmas.A51LoopsCor
+import NurbsVerif.Lemmas.InsertCodedObj
 
 /-!
 # C04  Knot insertion never changes the shape
@@ -763,5 +764,135 @@ example : fnOf ([0,0,0,0,1/2,1,1,1,1] : List ℚ) 4 ≤ 1/2 ∧ (1/2 : ℚ) < fn
   refine ⟨by decide +kernel, by decide +kernel, fun x h1 h2 => ?_⟩
   have : x = 4 := by omega
   subst this; decide +kernel
+
+/-! ### A5.1 as coded, LIST-OF-ROWS branch (`knotInsertionRowsA51`: the `else:` of `isinstance(temp[i][0], float)`) -/
+
+/-- **The loops of `helpers.knot_insertion` on a list of rows compute the index-by-index model of the rows branch.**
+    `knotInsertionRowsA51` is the literal transcription of the helper called with rows (what `operations.insert_knot`
+    feeds for volumes): the same allocation, copy loops, initialisation of `temp`, edge writes and final loop as the
+    point branch, and in the sweep the loop `for idx in range(len(temp[i])): temp[i][idx][:] = …` over the points of a
+    row, run sequentially.  For every degree, knot function, list of rows, parameter, count `r ≥ 0`, multiplicity
+    argument `s` and span argument `k` with `p ≤ k` and `r + s ≤ p` (no negative index) it returns, slot by slot and
+    point by point, what `knotInsertionRows` returns.  `hR` (rectangular rows: on ragged rows the code raises
+    `IndexError`) and `hkR` (no read past the last row) are the guards of the code / of the driver op; they are not used. -/
+theorem knot_insertion_rows_as_coded_eq_model (p : ℕ) (U : ℕ → K) (R : List (List (List K))) (u : K) (r s k : ℕ)
+    (hR : Rows.RectW (R.headD []).length R) (hpk : p ≤ k) (hkR : k < R.length) (hrs : r + s ≤ p) :
+    knotInsertionRowsA51 p U R u r s k = knotInsertionRows p U R u r s k :=
+  knotInsertionRowsA51_eq_model p U R u r s k hpk hrs
+
+/-- **Every iso-curve of the loops on rows is the loops on that iso-curve**: column `c` of what the rows branch as
+    coded returns is what the point branch as coded returns for column `c` of the input (same guard). -/
+theorem knot_insertion_rows_as_coded_isocurve (c p : ℕ) (U : ℕ → K) (R : List (List (List K))) (u : K) (r s k : ℕ)
+    (hR : Rows.RectW (R.headD []).length R) (hpk : p ≤ k) (hrs : r + s ≤ p) :
+    isoCol c (knotInsertionRowsA51 p U R u r s k) = knotInsertionA51 p U (isoCol c R) u r s k := by
+  rw [knotInsertionRowsA51_eq_model p U R u r s k hpk hrs, knotInsertionA51_eq_model p U _ u r s k hpk hrs]
+  exact Rows.isoCol_knotInsertionRows c p U R u r s k
+
+/-! ### the object-level operation with the helper AS CODED (`insertKnotDirCoded`, `insertKnotCoded`)
+
+`insertKnotDirCoded` / `insertKnotCoded` are `insertKnotDir` / `insertKnot` with every helper call replaced by the
+literal transcription of the helper: `knotInsertionA51` on every iso-curve of a curve or a surface, ONE call of
+`knotInsertionRowsA51` on the gathered rows (`volRows`, scattered back by `volUnrows`) for a volume.  They are run
+against `operations.insert_knot` by the correspondence check (`insc`). -/
+
+/-- **One direction of `insert_knot` through the loops as coded is the model's `insertKnotDir`.**  The guard of the
+    transcriptions holds for every call the operation makes: `degree ≤ span` because the span search returns a span
+    `≥ degree` when there are at least `degree + 1` control points (`hpn`), `num + s ≤ degree` by the multiplicity
+    check (with `check = false` it is a hypothesis, `hrs`).  `h3`: a volume has three non-empty directions. -/
+theorem insertKnotDir_as_coded_eq_model (S : Shape K) (dir : ℕ) (u : K) (r : ℕ) (tol : K) (check : Bool)
+    (hpn : S.deg dir + 1 ≤ S.size dir)
+    (hrs : check = false → r + findMultiplicity u (S.kv dir) tol ≤ S.deg dir)
+    (h3 : S.pdim = 3 → dir < 3 ∧ 0 < S.size 0 ∧ 0 < S.size 1 ∧ 0 < S.size 2) :
+    insertKnotDirCoded S dir u r tol check = insertKnotDir S dir u r tol check :=
+  insertKnotDirCoded_eq S dir u r tol check hpn hrs h3
+
+/-- **One `insert_knot` call on a curve object through the loops as coded = the model** (object state and flag). -/
+theorem insertKnot_as_coded_eq_model_curve (S : Shape K) (h1 : S.pdim = 1) (hpn : S.deg 0 + 1 ≤ S.size 0)
+    (params : List (Option K)) (nums : List ℕ) (tol : K) (check : Bool)
+    (hrs : check = false → ∀ u, params.getD 0 none = some u →
+      nums.getD 0 0 + findMultiplicity u (S.kv 0) tol ≤ S.deg 0) :
+    insertKnotCoded S params nums tol check = insertKnot S params nums tol check :=
+  insertKnotCoded_curve S h1 hpn params nums tol check hrs
+
+/-- **One `insert_knot` call on a surface through the loops as coded = the model** (object state and flag): any
+    subset of the two directions, every requested direction admissible or rejected by the multiplicity check. -/
+theorem insertKnot_as_coded_eq_model_surface (d : ℕ) (S : Shape K) (hS : SurfWF d S) (params : List (Option K))
+    (nums : List ℕ) (tol : K) (check : Bool) (hreq : CallOkOrRej 2 S params nums tol check) :
+    insertKnotCoded S params nums tol check = insertKnot S params nums tol check :=
+  insertKnotCoded_surface_any d S hS params nums tol check hreq
+
+/-- **One `insert_knot` call on a volume through the rows branch as coded = the model** (object state and flag). -/
+theorem insertKnot_as_coded_eq_model_volume (d : ℕ) (S : Shape K) (hS : VolWF d S) (params : List (Option K))
+    (nums : List ℕ) (tol : K) (check : Bool) (hreq : CallOkOrRej 3 S params nums tol check) :
+    insertKnotCoded S params nums tol check = insertKnot S params nums tol check :=
+  insertKnotCoded_volume_any d S hS params nums tol check hreq
+
+/-- **Shape preservation for the loops as coded, surfaces**: `insertKnot_preserves_surface` for the object computed
+    by `knotInsertionA51` on every iso-curve - the call completes, the result is a well-formed surface with the same
+    degrees and domain, and every surface point (every parameter pair of the domain, every coordinate) is unchanged. -/
+theorem insert_as_coded_preserves_surface (d : ℕ) (S : Shape K) (hS : SurfWF d S) (params : List (Option K))
+    (nums : List ℕ) (tol : K) (check : Bool) (hpl : params.length = 2) (hnl : nums.length = 2)
+    (hreq : CallOk 2 S params nums tol)
+    (R : Shape K × Bool) (hR : insertKnotCoded S params nums tol check = R)
+    (u v : K) (hu1 : fnOf (S.kv 0) (S.deg 0) ≤ u) (hu2 : u ≤ fnOf (S.kv 0) (S.size 0))
+    (hv1 : fnOf (S.kv 1) (S.deg 1) ≤ v) (hv2 : v ≤ fnOf (S.kv 1) (S.size 1)) (j : ℕ) :
+    R.2 = true ∧ SurfWF d R.1 ∧ R.1.degs = S.degs ∧ R.1.rat = S.rat ∧
+    (∀ i, i < 2 → fnOf (R.1.kv i) (R.1.deg i) = fnOf (S.kv i) (S.deg i) ∧
+      fnOf (R.1.kv i) (R.1.size i) = fnOf (S.kv i) (S.size i)) ∧
+    (surfEval R.1 u v).getD j 0 = (surfEval S u v).getD j 0 :=
+  insertKnot_preserves_surface d S hS params nums tol check hpl hnl hreq R
+    (by rw [← insertKnotCoded_surface d S hS params nums tol check hreq]; exact hR) u v hu1 hu2 hv1 hv2 j
+
+/-- **Shape preservation for the loops as coded, volumes**: `insertKnot_preserves_volume` for the object computed
+    through gather / `knotInsertionRowsA51` / scatter. -/
+theorem insert_as_coded_preserves_volume (d : ℕ) (S : Shape K) (hS : VolWF d S) (params : List (Option K))
+    (nums : List ℕ) (tol : K) (check : Bool) (hpl : params.length = 3) (hnl : nums.length = 3)
+    (hreq : CallOk 3 S params nums tol)
+    (R : Shape K × Bool) (hR : insertKnotCoded S params nums tol check = R)
+    (u v w : K) (hu1 : fnOf (S.kv 0) (S.deg 0) ≤ u) (hu2 : u ≤ fnOf (S.kv 0) (S.size 0))
+    (hv1 : fnOf (S.kv 1) (S.deg 1) ≤ v) (hv2 : v ≤ fnOf (S.kv 1) (S.size 1))
+    (hw1 : fnOf (S.kv 2) (S.deg 2) ≤ w) (hw2 : w ≤ fnOf (S.kv 2) (S.size 2)) (j : ℕ) :
+    R.2 = true ∧ VolWF d R.1 ∧ R.1.degs = S.degs ∧ R.1.rat = S.rat ∧
+    (∀ i, i < 3 → fnOf (R.1.kv i) (R.1.deg i) = fnOf (S.kv i) (S.deg i) ∧
+      fnOf (R.1.kv i) (R.1.size i) = fnOf (S.kv i) (S.size i)) ∧
+    (volEval R.1 u v w).getD j 0 = (volEval S u v w).getD j 0 :=
+  insertKnot_preserves_volume d S hS params nums tol check hpl hnl hreq R
+    (by rw [← insertKnotCoded_volume d S hS params nums tol check hreq]; exact hR) u v w hu1 hu2 hv1 hv2 hw1 hw2 j
+
+/-! #### non-vacuity -/
+
+/-- the rows of the (R) example, the loops as coded: the guard holds (`2 ≤ 2 < 3`, `1 + 0 ≤ 2`) and both quadratic
+    iso-curves receive 1/2 at once -/
+example : knotInsertionRowsA51 2 (fnOf ([0,0,0,1,1,1] : List ℚ)) [[[0],[10]], [[2],[12]], [[0],[16]]] (1/2) 1 0 2
+    = [[[0],[10]], [[1],[11]], [[1],[14]], [[0],[16]]] := by decide +kernel
+
+/-- a cubic direction, rows of two 2-D points, the knot 1/2 (multiplicity `s = 1`, span `k = 4`) inserted twice: the
+    loops on rows and the index model agree (here by evaluation; in general by the theorem) -/
+example : knotInsertionRowsA51 3 (fnOf ([0,0,0,0,1/2,1,1,1,1] : List ℚ))
+      [[[0,0],[1,1]], [[1,2],[2,0]], [[3,3],[0,4]], [[4,1],[2,2]], [[5,0],[6,1]]] (1/2) 2 1 4
+    = knotInsertionRows 3 (fnOf ([0,0,0,0,1/2,1,1,1,1] : List ℚ))
+      [[[0,0],[1,1]], [[1,2],[2,0]], [[3,3],[0,4]], [[4,1],[2,2]], [[5,0],[6,1]]] (1/2) 2 1 4 := by decide +kernel
+
+/-- the example surface, both directions in one call through the loops as coded: the hypotheses of
+    `insertKnot_as_coded_eq_model_surface` are those shown admissible above … -/
+example (hreq : CallOk 2 exSurfQ [some (1/2), some (1/4)] [1, 2] (1/10000000)) :
+    insertKnotCoded exSurfQ [some (1/2), some (1/4)] [1, 2] (1/10000000) true
+      = insertKnot exSurfQ [some (1/2), some (1/4)] [1, 2] (1/10000000) true :=
+  insertKnot_as_coded_eq_model_surface 3 exSurfQ exSurfQ_wf _ _ _ true
+    (fun dir hdir u hp hn => Or.inl (hreq dir hdir u hp hn))
+
+/-- … and the loops as coded do refine both knot vectors of it -/
+example : (insertKnotCoded exSurfQ [some (1/2), some (1/4)] [1, 2] (1/10000000) true).2 = true ∧
+    (insertKnotCoded exSurfQ [some (1/2), some (1/4)] [1, 2] (1/10000000) true).1.kvs
+      = [[0,0,1/2,1,1], [0,0,0,1/4,1/4,1/2,1,1,1]] := by decide +kernel
+
+/-- the example volume through the rows branch as coded: u and w in one call; a second copy of 1/2 along w is rejected
+    after u has been applied, exactly as in the model -/
+example : (insertKnotCoded exVolQ [some (1/3), none, some (1/2)] [1, 0, 1] (1/10000000) true).1.sizes = [3, 2, 5] ∧
+    (insertKnotCoded exVolQ [some (1/3), none, some (1/2)] [1, 0, 2] (1/10000000) true).2 = false ∧
+    (insertKnotCoded exVolQ [some (1/3), none, some (1/2)] [1, 0, 2] (1/10000000) true).1.kvs
+      = [[0,0,1/3,1,1], [0,0,1,1], [0,0,0,1/2,1,1,1]] ∧
+    (insertKnotCoded exVolQ [some (1/3), none, some (1/2)] [1, 0, 2] (1/10000000) true).1.net
+      = (insertKnot exVolQ [some (1/3), none, some (1/2)] [1, 0, 2] (1/10000000) true).1.net := by decide +kernel
 
 end C04
